@@ -1596,6 +1596,11 @@ package leveldb
 //@ func recoverTable
 //@   props C19
 //@   safety off
+// (the scan of a damaged table must go on behind a damaged block: the reader's strictness is masked out of the
+// options - and the masked value must not be zero, which the options read as "default", reader strictness included;
+// F16)
+//@   at before call storage.Storage.List#1
+//@     assert [C19:masked-strictness-is-not-read-as-the-default] o.Strict != 0
 //@   at before call (*session).commit#1
 //@     assert [C19:manifest-carries-the-recovered-sequence] recHas(rec.hasRec, recSeqNum) && rec.seqNum == maxSeq
 //@ func (*sessionRecord).addTable
